@@ -87,12 +87,8 @@ def eq : X α → X α → Bool
 def ne (a b : X α) : Bool := !(eq a b)
 
 /-- `np.minimum` / `np.maximum`: NaN-propagating -/
-def npmin : X α → X α → X α
-  | nan, _ | _, nan => nan
-  | a, b => if le a b then a else b
-def npmax : X α → X α → X α
-  | nan, _ | _, nan => nan
-  | a, b => if le a b then b else a
+def npmin (a b : X α) : X α := if isnan a || isnan b then nan else if le a b then a else b
+def npmax (a b : X α) : X α := if isnan a || isnan b then nan else if le a b then b else a
 
 /-- Python builtin `min(a, b)`: `b if b < a else a` -/
 def pymin (a b : X α) : X α := if lt b a then b else a
@@ -175,19 +171,29 @@ def toFin? : X α → Option α | fin a => some a | _ => none
 @[simp] theorem eq_fin_pinf (a : α) : eq (fin a) pinf = false := rfl
 @[simp] theorem eq_fin_ninf (a : α) : eq (fin a) ninf = false := rfl
 @[simp] theorem npmin_fin (a b : α) : npmin (fin a) (fin b) = fin (min a b) := by
-  simp only [npmin, le_fin]; rcases le_total a b with h | h
+  simp only [npmin, isnan, Bool.or_self, Bool.false_eq_true, if_false, le, decide_eq_true_eq]
+  rcases le_total a b with h | h
   · simp [h]
   · by_cases h' : a ≤ b
     · have : a = b := le_antisymm h' h
       simp [this]
     · simp [h', min_eq_right h]
 @[simp] theorem npmax_fin (a b : α) : npmax (fin a) (fin b) = fin (max a b) := by
-  simp only [npmax, le_fin]; rcases le_total a b with h | h
+  simp only [npmax, isnan, Bool.or_self, Bool.false_eq_true, if_false, le, decide_eq_true_eq]
+  rcases le_total a b with h | h
   · simp [h]
   · by_cases h' : a ≤ b
     · have : a = b := le_antisymm h' h
       simp [this]
     · simp [h', max_eq_left h]
+theorem isnan_npmax (a b : X α) : isnan (npmax a b) = (isnan a || isnan b) := by
+  unfold npmax
+  cases ha : isnan a <;> cases hb : isnan b <;> simp [isnan_nan]
+  split <;> assumption
+theorem isnan_npmin (a b : X α) : isnan (npmin a b) = (isnan a || isnan b) := by
+  unfold npmin
+  cases ha : isnan a <;> cases hb : isnan b <;> simp [isnan_nan]
+  split <;> assumption
 @[simp] theorem mul_nan_right (a : X α) : mul a nan = nan := by cases a <;> rfl
 @[simp] theorem mul_nan_left (a : X α) : mul nan a = nan := by cases a <;> rfl
 @[simp] theorem add_nan_right (a : X α) : add a nan = nan := by cases a <;> rfl
@@ -196,10 +202,10 @@ def toFin? : X α → Option α | fin a => some a | _ => none
 @[simp] theorem sub_nan_left (a : X α) : sub nan a = nan := by cases a <;> rfl
 @[simp] theorem div_nan_right (a : X α) : div a nan = nan := by cases a <;> rfl
 @[simp] theorem div_nan_left (a : X α) : div nan a = nan := by cases a <;> rfl
-@[simp] theorem npmin_nan_left (a : X α) : npmin nan a = nan := by cases a <;> rfl
-@[simp] theorem npmin_nan_right (a : X α) : npmin a nan = nan := by cases a <;> rfl
-@[simp] theorem npmax_nan_left (a : X α) : npmax nan a = nan := by cases a <;> rfl
-@[simp] theorem npmax_nan_right (a : X α) : npmax a nan = nan := by cases a <;> rfl
+@[simp] theorem npmin_nan_left (a : X α) : npmin nan a = nan := by simp [npmin, isnan]
+@[simp] theorem npmin_nan_right (a : X α) : npmin a nan = nan := by simp [npmin, isnan]
+@[simp] theorem npmax_nan_left (a : X α) : npmax nan a = nan := by simp [npmax, isnan]
+@[simp] theorem npmax_nan_right (a : X α) : npmax a nan = nan := by simp [npmax, isnan]
 @[simp] theorem lt_nan_left (a : X α) : lt nan a = false := by cases a <;> rfl
 @[simp] theorem lt_nan_right (a : X α) : lt a nan = false := by cases a <;> rfl
 @[simp] theorem le_nan_left (a : X α) : le nan a = false := by cases a <;> rfl
